@@ -431,9 +431,12 @@ def client_stage(c):
 def run(c):
   # translator: which RPCs every client-library method issues (one writing RPC per single-resource call)
   from vcheck import clientshapecheck
+  from vcheck import pythiashapecheck
   clientshapecheck.translate(c)
+  pythiashapecheck.translate(c)
   c.proof_stage()
   clientshapecheck.stage(c)
+  pythiashapecheck.stage(c)
   backends = ['ram', 'sqlmem']
   cfgs = svccheck.identify_flags(c, backends, report=('suggestCatchesAll', 'shortDeliveryOk', 'esFailureFinishesOp'))
   n = 80 if c.tier == 'quick' else 1000
